@@ -100,6 +100,14 @@ def str_count (s c : PyVal) : M PyVal :=
   | .str _, _ => throw typeError
   | _, _ => throw attributeError
 
+/-! ### a module-level dict of constants (its current contents as an association list) -/
+
+/-- `D.get(k, d)` -/
+def const_dict_get (kvs : List (PyVal × PyVal)) (k d : PyVal) : M PyVal :=
+  match kvs.find? (fun kv => PyVal.eq kv.1 k) with
+  | some kv => pure kv.2
+  | Option.none => pure d
+
 /-! ### sets -/
 
 def mkSet (kind : String) (l : List PyVal) : PyVal := .obj kind [("items", .list l)]
